@@ -1,7 +1,13 @@
 (* C13 — single-precision floating-point blocks meet IEEE-754 within stated error bounds.
    Statements only; proofs in Proofs/C13/*.v.  Model: Model/Fp.v (word-level datapath of FPComparator_SP, FPAdder_SP,
    FPMult_SP, InttoFP_SP, FPtoInt_SP with the real wire widths).  Meaning of the claims: Spec/C13.v.
-   Values are scaled integers: sval a = val a * 2^150 with val a = (-1)^s (2^23+m) 2^(e-150)   (Qval_sval). *)
+   Values are scaled integers: sval a = val a * 2^150 with val a = (-1)^s (2^23+m) 2^(e-150)   (Qval_sval).
+
+   Two widths of the model are parameters that the check (py/props/c13.py) reads off the LIVE circuit on every run and
+   then ties the real block to that instance: ew = width of FPAdder_SP's `ediff` wire (fpadd_w ew) and the upper bound of
+   FPtoInt_SP's p_lost range (fp2int_gen hi).  fpadd = fpadd_w 8 and fp2int = fp2int_gen 31 are the current /repo.  The
+   full-strength theorems below hold for ew >= 8 and hi = 31; if the probe selects anything else they do not apply, the
+   check reports the obligation as broken and searches for the failing operand. *)
 From V Require Import Base.Bits Spec.C13 Model.Fp.
 From V Require Import Proofs.C13.Cmp Proofs.C13.Mul Proofs.C13.I2F Proofs.C13.F2I Proofs.C13.AddComm Proofs.C13.AddBound
                       Proofs.C13.AddRefute Proofs.C13.QBridge.
@@ -37,25 +43,10 @@ Theorem fp2int_invalid : forall a r pl dn inv, normal a -> fp2int a = (r, pl, dn
   (inv = true <-> ~ fp2int_in_range a).
 Proof. exact fp2int_invalid_lemma. Qed.
 
-(* p_lost: the full clause "p_lost <-> something was discarded" is FALSE of the circuit (fp2int_plost_refuted).
-   What holds: the flag never misses a loss, and it fires exactly on (loss or odd integer result). *)
-Theorem fp2int_plost_partial : forall a r pl dn inv, normal a -> fp2int a = (r, pl, dn, inv) -> fp2int_in_range a ->
-  (fp2int_discarded a -> pl = true) /\
-  (pl = true <-> (fp2int_discarded a \/ Z.odd (fp2int_value a) = true)).
-Proof.
-  exact (fun a r pl dn inv Hn Heq Hin =>
-           conj (fp2int_plost_sound a r pl dn inv Hn Heq Hin) (fp2int_plost_char a r pl dn inv Hn Heq Hin)).
-Qed.
-
-(* 1.0 = 0x3f800000 converts to 1 with p_lost raised although nothing is discarded *)
-Theorem fp2int_plost_refuted :
-  exists a, normal a /\ fp2int_in_range a /\ ~ fp2int_discarded a /\ fp2int a = (1, true, false, false).
-Proof. exact fp2int_plost_refuted_lemma. Qed.
-
-(* the same datapath with Range(shifted, 31, 0) has the exact flag: the defect is that one bound *)
-Theorem fp2int_plost_repaired : forall a r pl dn inv, normal a -> fp2int_gen 31 a = (r, pl, dn, inv) -> fp2int_in_range a ->
-  sgn 32 r = fp2int_value a /\ (pl = true <-> fp2int_discarded a).
-Proof. exact fp2int_fixed_plost. Qed.
+(* precision lost exactly when the truncation discarded something *)
+Theorem fp2int_plost : forall a r pl dn inv, normal a -> fp2int a = (r, pl, dn, inv) -> fp2int_in_range a ->
+  (pl = true <-> fp2int_discarded a).
+Proof. exact fp2int_plost_lemma. Qed.
 
 (* ---- multiplier: exact product normal -> normal result within 1 ulp (of the result) of the exact product *)
 Theorem fpmul_ulp : forall a b, normal a -> normal b -> mul_exact_normal a b -> mul_spec a b (fpmul a b).
@@ -64,26 +55,24 @@ Proof. exact fpmul_ulp_lemma. Qed.
 Theorem fpmul_comm : forall a b, fpmul a b = fpmul b a.
 Proof. exact fpmul_comm_lemma. Qed.
 
-(* ---- adder, exponent gap < 32: exact sum normal -> normal result with the sign of the exact sum, within 2 ulp of the
-   larger operand.  (`_partial`: for gaps >= 32 the claim is false of the circuit, see fpadd_refuted.) *)
-Theorem fpadd_partial : forall a b, normal a -> normal b -> Z.abs (expo a - expo b) < 32 ->
-  add_exact_normal a b -> add_spec a b (fpadd a b).
-Proof. exact fpadd_partial_lemma. Qed.
+(* ---- adder, EVERY pair of normal operands whatever the exponent gap: exact sum normal -> normal result with the sign
+   of the exact sum, within 2 ulp of the larger operand *)
+Theorem fpadd_bound : forall a b, normal a -> normal b -> add_exact_normal a b -> add_spec a b (fpadd a b).
+Proof. exact fpadd_bound_lemma. Qed.
 
-(* commutative on ALL gaps (the swap stage canonicalises the operand order); x + (-x), whose exact result 0 is not
-   normal, is the only excluded case: there the sign of the result follows the first operand *)
+(* the same for every ediff width the probe may select from 8 bits up (gaps between normal exponent fields are <= 253) *)
+Theorem fpadd_w_bound : forall ew a b, 8 <= ew -> normal a -> normal b -> add_exact_normal a b -> add_spec a b (fpadd_w ew a b).
+Proof. exact fpadd_w_total_lemma. Qed.
+
+(* and why the width matters: an ew-bit ediff wire is exact for exponent gaps below 2^ew *)
+Theorem fpadd_w_gap_bound : forall ew a b, 0 <= ew -> normal a -> normal b -> Z.abs (expo a - expo b) < 2 ^ ew ->
+  add_exact_normal a b -> add_spec a b (fpadd_w ew a b).
+Proof. exact fpadd_w_gap_lemma. Qed.
+
+(* commutative (the swap stage canonicalises the operand order); x + (-x), whose exact result 0 is not normal, is the
+   only excluded case: there the sign of the result follows the first operand *)
 Theorem fpadd_comm : forall a b, word a -> word b -> sval a + sval b <> 0 -> fpadd a b = fpadd b a.
 Proof. exact fpadd_comm_lemma. Qed.
-
-(* gap 32: 2^40 + 2^8 returns 2^41 (the 5-bit ediff wire wraps, the small operand is added unshifted) *)
-Theorem fpadd_refuted :
-  exists a b, normal a /\ normal b /\ add_exact_normal a b /\ (expo a - expo b) mod 32 <> expo a - expo b /\
-              fpadd a b = 1409286144 /\ ~ add_spec a b (fpadd a b).
-Proof. exact fpadd_refuted_lemma. Qed.
-
-(* the same datapath with an 8-bit ediff wire meets the claim for EVERY pair of normal operands *)
-Theorem fpadd_wide_ediff_total : forall a b, normal a -> normal b -> add_exact_normal a b -> add_spec a b (fpadd_wide a b).
-Proof. exact fpadd_wide_total_lemma. Qed.
 
 (* ---- non-vacuity: concrete operands satisfy the hypotheses, and the conclusions are the expected bit patterns *)
 Example fpcmp_nonvacuous :   (* -2.25 < 1.5 ;  |-2.25| > |1.5| *)
@@ -93,17 +82,35 @@ Proof. unfold normal, word. vm_compute. intuition discriminate. Qed.
 Example int2fp_nonvacuous :  (* 2^24 + 1 -> 2^24 with p_lost;  -3 -> -3.0 exactly *)
   int2fp 16777217 = (1266679808, true) /\ int2fp 4294967293 = (3225419776, false).
 Proof. vm_compute. split; reflexivity. Qed.
-Example fp2int_nonvacuous :  (* -2.5 -> -2 with p_lost;  2^31 -> invalid *)
+Example fp2int_nonvacuous :  (* -2.5 -> -2 with p_lost;  3.0 -> 3 without;  2^31 -> invalid *)
   normal 3223322624 /\ fp2int_in_range 3223322624 /\ fp2int 3223322624 = (4294967294, true, false, false) /\
+  normal 1077936128 /\ fp2int_in_range 1077936128 /\ fp2int 1077936128 = (3, false, false, false) /\
   normal 1325400064 /\ ~ fp2int_in_range 1325400064 /\ snd (fp2int 1325400064) = true.
 Proof. unfold normal, word, fp2int_in_range. vm_compute. intuition discriminate. Qed.
 Example fpmul_nonvacuous :   (* 1.5 * -2.25 = -3.375 exactly *)
   normal 1069547520 /\ normal 3222274048 /\ mul_exact_normal 1069547520 3222274048 /\ fpmul 1069547520 3222274048 = 3226992640.
 Proof. unfold normal, word, mul_exact_normal, normal_range. vm_compute. intuition discriminate. Qed.
-Example fpadd_nonvacuous :   (* 1.5 + -2.25 = -0.75 exactly (cancellation, sign of the larger operand) *)
-  normal 1069547520 /\ normal 3222274048 /\ Z.abs (expo 1069547520 - expo 3222274048) < 32 /\
-  add_exact_normal 1069547520 3222274048 /\ fpadd 1069547520 3222274048 = 3208642560.
+Example fpadd_nonvacuous :   (* 1.5 + -2.25 = -0.75 exactly (cancellation, sign of the larger operand);  2^40 + 2^8 (gap 32) = 2^40 *)
+  normal 1069547520 /\ normal 3222274048 /\ add_exact_normal 1069547520 3222274048 /\ fpadd 1069547520 3222274048 = 3208642560 /\
+  normal 1400897536 /\ normal 1132462080 /\ add_exact_normal 1400897536 1132462080 /\ fpadd 1400897536 1132462080 = 1400897536.
 Proof. unfold normal, word, add_exact_normal, normal_range. vm_compute. intuition discriminate. Qed.
+
+(* ---- history: the two instances that /repo had before its repairs (explicitly the OLD widths, not the current circuit).
+   They are what the check falls back to describing if the probe ever selects those widths again. *)
+(* before 150f909 the ediff wire had 5 bits: gap 32, 2^40 + 2^8 returned 2^41 *)
+Example fpadd_before_repair_150f909 :
+  exists a b, normal a /\ normal b /\ add_exact_normal a b /\ (expo a - expo b) mod 32 <> expo a - expo b /\
+              fpadd_w 5 a b = 1409286144 /\ ~ add_spec a b (fpadd_w 5 a b).
+Proof. exact fpadd_5bit_refuted_lemma. Qed.
+(* before 48843fa p_lost tested Range(shifted, 32, 0): it fired exactly on (loss or odd integer result), e.g. on 1.0 *)
+Example fp2int_plost_before_repair_48843fa_char : forall a r pl dn inv,
+  normal a -> fp2int_gen 32 a = (r, pl, dn, inv) -> fp2int_in_range a ->
+  (pl = true <-> (fp2int_discarded a \/ Z.odd (fp2int_value a) = true)).
+Proof. exact fp2int_32_plost_char. Qed.
+Example fp2int_plost_before_repair_48843fa :
+  exists a, normal a /\ fp2int_in_range a /\ ~ fp2int_discarded a /\ fp2int_gen 32 a = (1, true, false, false)
+            /\ fp2int a = (1, false, false, false).
+Proof. exact fp2int_32_plost_refuted_lemma. Qed.
 
 Print Assumptions Qval_sval.
 Print Assumptions fpcmp_exact.
@@ -111,12 +118,10 @@ Print Assumptions int2fp_trunc.
 Print Assumptions trunc_sig24_meaning.
 Print Assumptions fp2int_trunc.
 Print Assumptions fp2int_invalid.
-Print Assumptions fp2int_plost_partial.
-Print Assumptions fp2int_plost_refuted.
-Print Assumptions fp2int_plost_repaired.
+Print Assumptions fp2int_plost.
 Print Assumptions fpmul_ulp.
 Print Assumptions fpmul_comm.
-Print Assumptions fpadd_partial.
+Print Assumptions fpadd_bound.
+Print Assumptions fpadd_w_bound.
+Print Assumptions fpadd_w_gap_bound.
 Print Assumptions fpadd_comm.
-Print Assumptions fpadd_refuted.
-Print Assumptions fpadd_wide_ediff_total.
